@@ -240,6 +240,9 @@ func (ex *Exec) runPath(prefix []int8) {
 	ex.steps = 0
 	ex.inBg = false
 	ex.pcDirty = false
+	ex.modelOK = false
+	ex.model = nil
+	ex.pendingA = nil
 	ex.clockN = 0
 	ex.lastNow = nil
 	ex.ghost = map[string]Value{}
@@ -249,6 +252,11 @@ func (ex *Exec) runPath(prefix []int8) {
 
 	ex.solver.send("(push 1)")
 	end := ex.runGuarded()
+	if end.Kind == "PANIC" || end.Kind == "FATAL" || end.Kind == "BLOCKS" {
+		if e2 := ex.flushGuarded(); e2 != nil {
+			end = *e2
+		}
+	}
 	if ex.pcDirty && (end.Kind == "PANIC" || end.Kind == "FATAL" || end.Kind == "BLOCKS") {
 		if ex.solver.Check() == "unsat" {
 			end = pathEnd{Kind: "PRUNED", Detail: "assume made the path infeasible"}
@@ -307,6 +315,7 @@ func (ex *Exec) runGuarded() (end pathEnd) {
 		}
 	}()
 	ex.callFunction(ex.entry, nil, nil)
+	ex.flushAsserts()
 	ex.ensureFeasible()
 	return pathEnd{Kind: "PASS"}
 }
@@ -381,7 +390,15 @@ func (ex *Exec) slot() (replay bool, code int8) {
 
 func (ex *Exec) setSlot(code int8) { ex.trace[len(ex.trace)-1] = code }
 
-// checkAssert evaluates a harness assertion on the current path.
+type pendingAssert struct {
+	c     *Term
+	label string
+	slot  int
+}
+
+// checkAssert evaluates a harness assertion on the current path. Symbolic assertions are queued and
+// discharged together at the next solver event (flushAsserts): one query for the conjunction, and
+// individual queries only if that one is satisfiable.
 func (ex *Exec) checkAssert(c *Term, label string) {
 	if c.IsTrue() {
 		if ex.pos >= len(ex.prefix) {
@@ -391,20 +408,78 @@ func (ex *Exec) checkAssert(c *Term, label string) {
 		}
 		return
 	}
+	if ex.pos >= len(ex.prefix) && c.IsFalse() {
+		ex.flushAsserts()
+	}
 	replay, code := ex.slot()
 	if replay {
 		if code == 6 {
 			ex.assertPC(c)
+			ex.modelOK = false
 		}
 		return
 	}
-	st := ex.res.stat(label)
-	st.Checked++
 	if c.IsFalse() {
+		st := ex.res.stat(label)
+		st.Checked++
 		st.Failed++
 		ex.recordFailure(label, "ASSERT", "")
 		ex.end("PRUNED", "assertion concretely false; path ends after recording")
 	}
+	ex.pendingA = append(ex.pendingA, pendingAssert{c: c, label: label, slot: len(ex.trace) - 1})
+}
+
+// flushAsserts discharges the queued assertions.
+func (ex *Exec) flushAsserts() {
+	if len(ex.pendingA) == 0 {
+		return
+	}
+	pa := ex.pendingA
+	ex.pendingA = nil
+	if len(pa) > 1 && ex.bounds["batch_asserts"] == 1 {
+		conj := tTrue
+		for _, a := range pa {
+			conj = mkAnd(conj, a.c)
+		}
+		ex.res.Intercepts["q:assert-batch"]++
+		r, _ := ex.checkWithModel0(mkNot(conj))
+		if r == "unsat" {
+			if ex.pcDirty && !ex.modelOK {
+				ex.ensureFeasible()
+			}
+			for _, a := range pa {
+				st := ex.res.stat(a.label)
+				st.Checked++
+				st.Discharged++
+			}
+			return
+		}
+	}
+	for _, a := range pa {
+		ex.checkOne(a)
+	}
+}
+
+func (ex *Exec) checkWithModel0(c *Term) (string, map[string]uint64) {
+	if c.IsFalse() {
+		return "unsat", nil
+	}
+	if c.IsTrue() {
+		return ex.solver.Check(), nil
+	}
+	s := ex.solver.smt(c)
+	ex.solver.send("(push 1)")
+	ex.solver.send("(assert " + s + ")")
+	r := ex.solver.Check()
+	ex.solver.send("(pop 1)")
+	return r, nil
+}
+
+func (ex *Exec) checkOne(a pendingAssert) {
+	c, label := a.c, a.label
+	st := ex.res.stat(label)
+	st.Checked++
+	ex.res.Intercepts["q:assert"]++
 	neg := mkNot(c)
 	s := ex.solver.smt(neg)
 	ex.solver.send("(push 1)")
@@ -412,9 +487,8 @@ func (ex *Exec) checkAssert(c *Term, label string) {
 	r := ex.solver.Check()
 	switch r {
 	case "unsat":
-		if ex.pcDirty {
+		if ex.pcDirty && !ex.modelOK {
 			ex.solver.send("(pop 1)")
-			ex.setSlot(5)
 			st.Checked--
 			ex.ensureFeasible()
 			st.Checked++
@@ -432,10 +506,26 @@ func (ex *Exec) checkAssert(c *Term, label string) {
 	ex.solver.send("(pop 1)")
 	if r == "sat" {
 		// continue under the assumption that the assertion held, to look for further failures
-		ex.setSlot(6)
+		ex.trace[a.slot] = 6
+		ex.modelOK = false
 		ex.assertPC(c)
 		if ex.solver.Check() != "sat" {
 			ex.end("PRUNED", "assertion always false on this path")
 		}
 	}
+}
+
+// flushGuarded flushes queued assertions after the path already ended abnormally.
+func (ex *Exec) flushGuarded() (end *pathEnd) {
+	defer func() {
+		if r := recover(); r != nil {
+			if pe, ok := r.(pathEnd); ok {
+				end = &pe
+				return
+			}
+			end = &pathEnd{Kind: "UNSUPPORTED", Detail: fmt.Sprintf("engine panic in flush: %v", r)}
+		}
+	}()
+	ex.flushAsserts()
+	return nil
 }
